@@ -799,14 +799,19 @@ impl<'a> GeneralCheck<'a> {
                 }
             }
             Regex::Commit(_) => *attempt = None,
+            Regex::Return(regex) => {
+                // the return closes the rule node, which was opened before the attempt
+                if attempt.is_some() {
+                    diags.push(Diagnostic::return_in_ordered_choice(&regex.span(cst)));
+                }
+            }
             Regex::Name(_)
             | Regex::Symbol(_)
             | Regex::Predicate(_)
             | Regex::Action(_)
             | Regex::Assertion(_)
             | Regex::NodeRename(_)
-            | Regex::NodeElision(_)
-            | Regex::Return(_) => {}
+            | Regex::NodeElision(_) => {}
         };
     }
 }
